@@ -21,7 +21,7 @@ EXTENDS Integers, Sequences, FiniteSets, TLC, Json
 CONSTANTS MaxLen,        \* tokens per program
           MaxDepth,      \* nesting depth of if / loop
           AccToks,       \* set of access tokens [t |-> "acc", v, ou, od, w, st]
-          OtherToks,     \* subset of {"call","callgrow","grow","growneg","if","else","end","loop","endloop","mix"}
+          OtherToks,     \* subset of {"call","callgrow","grow","growneg","if","else","end","loop","endloop","mix","touch"}
           Sizes,         \* initial sizes in units
           TopU           \* units in 2^32 bytes under the scale map
 
@@ -49,7 +49,7 @@ AddAcc == /\ ~fin /\ Room
           /\ UNCHANGED <<open, fin>>
 
 AddPlain == /\ ~fin /\ Room
-            /\ \E s \in OtherToks \cap {"call", "callgrow", "grow", "growneg", "mix"} : Emit1(Tok(s))
+            /\ \E s \in OtherToks \cap {"call", "callgrow", "grow", "growneg", "mix", "touch"} : Emit1(Tok(s))
             /\ UNCHANGED <<open, fin>>
 
 OpenIf == /\ ~fin /\ "if" \in OtherToks /\ Len(prog) + Len(open) + 2 <= MaxLen /\ Len(open) < MaxDepth
@@ -114,7 +114,9 @@ Run(p, st, vals, c) ==
            IF NonNeg(ea) /\ EndsWithin(ea, k.w, st.pages)
            THEN Run(p, [nx EXCEPT !.accs = Append(@, [st |-> k.st, eu |-> ea[1], ed |-> ea[2], w |-> k.w, at |-> st.pc, pg |-> st.pages])], vals, c)
            ELSE [st EXCEPT !.trap = TRUE, !.trapAt = st.pc]
-      [] k.t \in {"call", "growneg"} -> Run(p, nx, vals, c)   \* memory.grow with a negative delta fails: no effect
+      [] k.t \in {"call", "growneg", "touch"} -> Run(p, nx, vals, c)   \* memory.grow with a negative delta fails: no effect;
+                                                                       \* "touch" = memory.copy(0, 0, 0) or memory.fill(0, 0, 0): zero bytes at address 0 are within ANY size
+                                                                       \* (also 0): no trap, no effect - but the instruction names the memory
       [] k.t \in {"callgrow", "grow"} ->
            Run(p, IF st.pages + 1 <= st.max THEN [nx EXCEPT !.pages = @ + 1] ELSE nx, vals, c)
       [] k.t = "mix" -> Run(p, [nx EXCEPT !.vals = <<st.vals[2], st.vals[1]>>], vals, c)
